@@ -126,7 +126,7 @@ class StmtMixin:
                     keys = z3.If(b, v.py.keys, keys)
                     dv = z3.If(b, v.py.vals, dv)
                 same = len({(str(v.py.kspec), str(v.py.vspec)) for v in vals}) == 1
-                return Sym("dict", None, v0.spec, DictPayload(keys, dv, v0.py.kspec if same else VAL, v0.py.vspec if same else VAL))
+                return Sym("dict", None, v0.spec, DictPayload(keys, dv, v0.py.kspec if same else VAL, v0.py.vspec if same else VAL, v0.py.mode))
             boxed = [box(v, m) for v in vals]
             t = boxed[-1]
             for b, x in zip(reversed(sels[:-1]), reversed(boxed[:-1])):
